@@ -46,6 +46,7 @@ func (c19) Assumptions() []string {
 
 func (c19) Gates(tier string, m map[string]int64) []rt.Gate {
 	return []rt.Gate{
+		rt.GateMin("stores whose handed-out memory was checked for damage afterwards", m, "arenas_checked", 100),
 		rt.GateMin("max statements in flight at the same time", m, "max:in_flight", 2),
 		rt.GateMin("rounds with overlapping executions", m, "overlapping_rounds", 20),
 		rt.GateMin("distinct global orders of storage events", m, "distinct", 50),
@@ -98,6 +99,9 @@ func c19Statements(r *rt.Rand, p string, n int, mutable bool) []string {
 		"select quantile(float(value), 0.5), count(1) where key ^= '%[1]s'",
 		"select * where key = '%[1]s001' | key = '%[1]s002'",
 		"select * where false & key ^= '%[1]s'",
+		// concatenations whose left operand is a slice handed out by the storage
+		"select key + '_%[1]s', value + '/' + key where key ^= '%[1]s'",
+		"select key where key ^= '%[1]s' & value + '%[1]s' != 'g1%[1]s'",
 		// short form (no select clause)
 		"where key ^= '%[1]s' limit 3",
 		"where key ^= '%[1]s' & value ~= '^g[0-3]$'",
@@ -216,7 +220,10 @@ func (k c19) Run(c *rt.Ctx) {
 		shared.JitterSeed = r.U64()
 		shared.InFlight, shared.MaxInFlight, shared.OrderHash = &inFlight, &maxInFlight, &order
 		shared.Tag = 0x9e3779b97f4a7c15
+		shared.Arena = true // every goroutine is handed the same store-owned memory
 	}
+	var privates []*refstore.Store
+	var pmu sync.Mutex
 	var wg sync.WaitGroup
 	start := make(chan struct{})
 	var running int64
@@ -235,6 +242,10 @@ func (k c19) Run(c *rt.Ctx) {
 				ps.JitterSeed = p.seed
 				ps.InFlight, ps.MaxInFlight, ps.OrderHash = &inFlight, &maxInFlight, &order
 				ps.Tag = uint64(g+1) * 0x9e3779b97f4a7c15
+				ps.Arena = true
+				pmu.Lock()
+				privates = append(privates, ps)
+				pmu.Unlock()
 				st = ps
 			}
 			<-start
@@ -257,6 +268,22 @@ func (k c19) Run(c *rt.Ctx) {
 	if atomic.LoadInt64(&maxRunning) >= 2 {
 		rec.Inc("overlapping_rounds")
 		rec.Distinct(atomic.LoadUint64(&order))
+	}
+	// memory handed out by the storage belongs to the storage
+	if shared != nil {
+		privates = append(privates, shared)
+	}
+	for _, ps := range privates {
+		rec.Inc("arenas_checked")
+		if dmg := ps.ArenaDamage(); len(dmg) > 0 {
+			c.Violation("storage-owned-memory-modified", storeMode+" / the library wrote into a key or value slice returned by the storage", func() rt.D {
+				if len(dmg) > 8 {
+					dmg = dmg[:8]
+				}
+				return rt.D{"store_mode": storeMode, "goroutines": G, "damaged_buffers": dmg, "statements_of_goroutine_0": plans[0].stmts}
+			})
+			return
+		}
 	}
 	// compare
 	for g, p := range plans {
